@@ -168,11 +168,12 @@ def run_decisions(desc):
     if fb != sorted(g)[:k]:
         viol("Population.topk does not keep the k best", k=k)
     cut_tie = 0 < k < n and sorted(g)[k - 1] == sorted(g)[k]
-    if not cut_tie:
-        ga = sorted(map(tuple, ta.genomes.tolist()))
-        gb = sorted(map(tuple, tb.genomes.tolist()))
-        if ga != gb:
-            viol("Population.topk keeps different individuals on (f,max) and (-f,min)", k=k)
+    if cut_tie:
+        comp("topk.tie_across_the_cut")
+    ga = sorted(map(tuple, ta.genomes.tolist()))
+    gb = sorted(map(tuple, tb.genomes.tolist()))
+    if ga != gb:
+        viol("Population.topk keeps different individuals on (f,max) and (-f,min)" + (" (fitness tie across the cut)" if cut_tie else ""), k=k)
     comp("select_new_population")
     ke = min(k, n)  # elite count of the (parents' elites + offspring) selection: 0 .. n
     comp(f"select_new_population.k_elites={'0' if ke == 0 else ('n' if ke == n else 'between')}")
@@ -191,6 +192,13 @@ def run_decisions(desc):
             "BaseSEA.select_new_population does not keep the n best of (offspring + the k_elites best parents)",
             k_elites=ke, n=n, direction_that_differs="maximisation" if sorted(nb_.fitnesses.tolist()) == want else "minimisation (or both)",
         )
+    merged_sorted = sorted(ofit + sorted(g)[:ke])
+    sel_cut_tie = len(merged_sorted) > n and merged_sorted[n - 1] == merged_sorted[n]
+    elite_cut_tie = 0 < ke < n and sorted(g)[ke - 1] == sorted(g)[ke]
+    if sel_cut_tie or elite_cut_tie:
+        comp("select_new_population.tie_across_a_cut")
+    if sorted(map(tuple, na_.genomes.tolist())) != sorted(map(tuple, nb_.genomes.tolist())):
+        viol("BaseSEA.select_new_population keeps different individuals on (f,max) and (-f,min)" + (" (fitness tie across a cut)" if sel_cut_tie or elite_cut_tie else ""), k_elites=ke)
     if nb_.size != n or na_.size != n:
         viol("BaseSEA.select_new_population changes the population size", a=int(na_.size), b=int(nb_.size), n=n)
 
